@@ -50,6 +50,18 @@ def run_compsim(scn, res: Result, check_fn=None):
     nrng = np.random.default_rng(scn["hist_seed"])
     pts = grid_points(space, nrng, scn["hist_n"])
     losses = gen_losses(nrng, len(pts), scn["loss_mode"])
+    if scn.get("offspace"):
+        # (C16 only) a history inherited from a wider search space: a few of its best points lie outside the bounds
+        org = np.random.default_rng(scn["offspace"])
+        k = int(org.integers(1, max(2, len(pts) // 2)))
+        rows = org.choice(len(pts), size=k, replace=False)
+        for r in rows:
+            j = int(org.integers(0, space.dims))
+            step = float(space.parameters_precision[j])
+            side = 1 if org.random() < 0.5 else -1
+            edge = space.parameters_bounds[1][j] if side > 0 else space.parameters_bounds[0][j]
+            pts[r, j] = edge + side * step * float(org.choice([0.4, 1.0, 2.0, 3.5, 40.0]))
+            losses[r] = np.min(losses[np.isfinite(losses)]) - float(org.random()) - 0.1 if np.isfinite(losses).any() else -1.0
     n_samples = 0
     for oi, op in enumerate(scn["ops"]):
         if op[0] == "sample":
